@@ -17,7 +17,7 @@ Hook     == {"absent", "empty", "program_only", "with_args", "wrong_type"}
 Cache    == {"absent", "negative", "zero", "positive", "wrong_type"}
 Preload  == {"absent", "negative", "zero", "positive", "wrong_type"}
 Timeout  == {"absent", "negative", "zero", "positive", "fractional", "wrong_type"}
-Colour   == {"absent", "valid", "short", "no_hash", "non_hex", "signed", "wrong_type"}
+Colour   == {"absent", "valid", "empty", "short", "no_hash", "non_hex", "signed", "wrong_type"}
 Shape    == {"ok", "unknown_key", "unknown_table", "syntax_error", "missing_file", "empty_file"}
 Vectors  == [hook : Hook, cache : Cache, preload : Preload, timeout : Timeout, colour : Colour, shape : Shape]
 
@@ -29,7 +29,7 @@ Effective(v) == IF v.shape \in {"missing_file", "empty_file"}
 MustReject(v) ==
     LET e == Effective(v) IN
     \/ e.shape \in {"unknown_key", "unknown_table", "syntax_error"}
-    \/ e.colour \in {"short", "no_hash", "non_hex", "signed", "wrong_type"}
+    \/ e.colour \in {"empty", "short", "no_hash", "non_hex", "signed", "wrong_type"}
     \/ "wrong_type" \in {e.hook, e.cache, e.preload, e.timeout} \/ e.timeout = "fractional"
 Dangerous(v) ==
     LET e == Effective(v) IN e.hook = "empty" \/ e.cache \in {"negative", "zero"} \/ e.preload = "negative"
